@@ -230,26 +230,50 @@ where
                 };
                 let key = new_key(sender, &target);
                 let _key = key.clone();
+                // a binding that cannot be opened, or whose connection has failed, costs this datagram only: the relay
+                // goes on for the other local applications and the next datagram of this one opens a new binding
+                let mut failed = false;
                 match client_server_cache.entry(key) {
                     Entry::Vacant(entry) => {
                         debug!("[udp] new binding; key={:?}", &_key);
-                        let out = new_out(&target, &context).await?;
-                        let (sink, relay_task) = new_binding(server_addr, client_local_tx.clone(), ((content, target), sender), _key, out, to_inbound_recv, to_outbound_send).await?;
-                        entry.insert(Binding {sink, relay_task});
+                        let binding = match new_out(&target, &context).await {
+                            Ok(out) => new_binding(server_addr, client_local_tx.clone(), ((content, target), sender), _key.clone(), out, to_inbound_recv, to_outbound_send).await,
+                            Err(e) => Err(e),
+                        };
+                        match binding {
+                            Ok((sink, relay_task)) => {
+                                entry.insert(Binding {sink, relay_task});
+                            }
+                            Err(e) => error!("[udp] new binding failed; key={:?}, error={}", &_key, e),
+                        }
                     }
                     Entry::Occupied(entry) => {
                         // client->server|outbound
                         let value = entry.into_mut();
                         if value.relay_task.is_finished() {
                             debug!("[udp] retry binding; key={:?}", &_key);
-                            let out = new_out(&target, &context).await?;
-                            let (sink, relay_task) = new_binding(server_addr, client_local_tx.clone(), ((content, target), sender), _key, out, to_inbound_recv, to_outbound_send).await?;
-                            value.sink = sink;
-                            value.relay_task = relay_task;
-                        } else {
-                            value.sink.send(to_outbound_send((content, target), server_addr)).await?;
+                            let binding = match new_out(&target, &context).await {
+                                Ok(out) => new_binding(server_addr, client_local_tx.clone(), ((content, target), sender), _key.clone(), out, to_inbound_recv, to_outbound_send).await,
+                                Err(e) => Err(e),
+                            };
+                            match binding {
+                                Ok((sink, relay_task)) => {
+                                    value.sink = sink;
+                                    value.relay_task = relay_task;
+                                }
+                                Err(e) => {
+                                    error!("[udp] retry binding failed; key={:?}, error={}", &_key, e);
+                                    failed = true;
+                                }
+                            }
+                        } else if let Err(e) = value.sink.send(to_outbound_send((content, target), server_addr)).await {
+                            error!("[udp] send to server failed; key={:?}, error={}", &_key, e);
+                            failed = true;
                         }
                     }
+                }
+                if failed {
+                    client_server_cache.remove(&_key);
                 }
             }
             else => break,
